@@ -109,7 +109,12 @@ theorem C18_canonical_routes (d r : IsoDate) (p : PartialDate) (ov : Option Over
     (dateToYearMonth d = .ok r → r.day = 1) ∧
     (∀ recv, yearMonthWith recv p ov = .ok r → r.day = 1) ∧
     (∀ recv, yearMonthAdd recv du o = .ok r → r.day = 1) := by
-  refine ⟨fun h => C18_canonical_from_fields _ _ _ h, ?_, ?_⟩
+  refine ⟨?_, ?_, ?_⟩
+  · intro h
+    unfold dateToYearMonth at h
+    cases h1 : ({ year := none, month := none, monthCode := none, day := none, era := false, eraYear := none } : PartialDate).withFallback
+        d.year d.month d.day true <;> simp only [h1, Out.bind_ok, Out.bind_err, Out.bind_panic] at h <;> (try cases h)
+    exact C18_canonical_from_fields _ _ _ h
   · intro recv h
     unfold yearMonthWith at h
     cases h1 : p.withFallback recv.year recv.month recv.day false <;>
